@@ -2,7 +2,9 @@ package rules
 
 import (
 	"fmt"
+	"go/constant"
 	"go/token"
+	"go/types"
 
 	"golang.org/x/tools/go/ssa"
 
@@ -92,6 +94,10 @@ func (b *boolFact) implies(v ssa.Value, pol bool, fr *callBind, seen map[ssa.Val
 	if eng.IsBoolConst(v, pol) {
 		return false
 	}
+	// the boolean itself may be the fact ("the comparison call answered true")
+	if _, isConst := v.(*ssa.Const); !isConst && b.atom(eng.Rel{Op: token.EQL, X: v, Y: boolConstOf(pol)}, fr) {
+		return true
+	}
 	if seen[v] {
 		return true // cycle through a loop phi: decided by the other edges
 	}
@@ -134,8 +140,97 @@ func (b *boolFact) implies(v ssa.Value, pol bool, fr *callBind, seen map[ssa.Val
 		if call, ok := n.Tuple.(*ssa.Call); ok {
 			return b.callImplies(call, n.Index, pol, fr, seen, depth)
 		}
+	case *ssa.UnOp:
+		// a flag variable that lives in a cell (captured by a function literal, or its address
+		// taken): every store of a value that can be pol must carry the fact, in the value or in
+		// the conditions under which the store executes. A cell that is never stored keeps its
+		// zero value false.
+		if n.Op == token.MUL {
+			if al := factCell(n.X); al != nil && !c06Escapes(al) {
+				if !pol {
+					return false
+				}
+				ok := true
+				for _, f := range eng.WithClosures(c06Outermost(al.Parent())) {
+					eng.Instrs(f, func(ins ssa.Instruction) {
+						st, isSt := ins.(*ssa.Store)
+						if !isSt || !c06AddrIs(st.Addr, al) {
+							return
+						}
+						if b.implies(st.Val, pol, fr, seen, depth) {
+							return
+						}
+						if !b.anyGuard(eng.GuardsOf(st), fr, seen, depth) {
+							ok = false
+						}
+					})
+				}
+				return ok
+			}
+		}
 	}
 	return false
+}
+
+// factCell resolves the address of a local variable cell: the Alloc itself, or the Alloc a
+// captured variable is bound to in the enclosing function.
+func factCell(addr ssa.Value) *ssa.Alloc {
+	for i := 0; i < 4; i++ {
+		switch a := addr.(type) {
+		case *ssa.Alloc:
+			return a
+		case *ssa.FreeVar:
+			fn := a.Parent()
+			idx := -1
+			for k, x := range fn.FreeVars {
+				if x == a {
+					idx = k
+				}
+			}
+			var bound ssa.Value
+			n := 0
+			if p := fn.Parent(); p != nil && idx >= 0 {
+				eng.Instrs(p, func(ins ssa.Instruction) {
+					if mc, ok := ins.(*ssa.MakeClosure); ok && mc.Fn == ssa.Value(fn) && idx < len(mc.Bindings) {
+						bound = mc.Bindings[idx]
+						n++
+					}
+				})
+			}
+			if n != 1 || bound == nil {
+				return nil
+			}
+			addr = bound
+		default:
+			return nil
+		}
+	}
+	return nil
+}
+
+func boolConstOf(b bool) *ssa.Const {
+	return ssa.NewConst(constant.MakeBool(b), types.Typ[types.Bool])
+}
+
+// guardedByFact: ins executes only when the fact holds — one of its guards implies it, or ins
+// sits in a helper / callback all of whose guard sites are guarded by it (depth levels).
+func (b *boolFact) guardedByFact(ins ssa.Instruction, depth int) bool {
+	if b.anyGuard(eng.GuardsOf(ins), nil, map[ssa.Value]bool{}, eng.LiftDepth) {
+		return true
+	}
+	if depth <= 0 || ins.Parent() == nil {
+		return false
+	}
+	sites := b.w.GuardSites(ins.Parent())
+	if len(sites) == 0 {
+		return false
+	}
+	for _, s := range sites {
+		if !b.guardedByFact(s, depth-1) {
+			return false
+		}
+	}
+	return true
 }
 
 // factEdgeGuards returns the branch conditions that hold when block b is entered through its
@@ -210,66 +305,224 @@ func (b *boolFact) edge(from *ssa.BasicBlock, succIdx int) bool {
 	return b.implies(iff.Cond, succIdx == 0, nil, map[ssa.Value]bool{}, eng.LiftDepth)
 }
 
-// c05ResizeApplied (C05.R6 / C06.R6): a changed limit is always applied. In the local wrapper's
-// Sync, on an edge where the schema type is known to equal a flow-control type constant every
-// path to an exit passes a Resize call: no test on the new value (e.g. "max > 0") may skip it,
-// because the new configuration has already been recorded and an identical later Sync returns
-// early. The type test and the Resize may sit in helpers the body of Sync was spread over; the
-// test may be written as ==, !=, a switch, a named condition or a predicate function.
+// c05ResizeApplied (C05.R6 / C06.R6): a changed limit is always applied. Decided by forcing: the
+// paths of the local wrapper's Sync (and of the same-package helpers its body may have been
+// spread over) are enumerated with the schema type pinned to wantType and the limiter pinned to
+// exist. Every path that records the new configuration (stores the field remembering the last
+// schema) must call Resize on the limiter: no test on the new value (e.g. "max > 0") may skip
+// it, because an identical later Sync returns early on the recorded configuration. Paths that
+// do not record the configuration (the unchanged early return) are not concerned. The verdict
+// does not depend on where the type test sits (switch, ==, !=, named condition, a helper that
+// returns the limits together with an "applicable" flag), on the order of the branches, or on
+// whether the two type cases share one Resize call.
 func c05ResizeApplied(c *eng.Ctx, rule string, wantType string) {
-	sy := c.MustMethod(pkgFCRemote, "localWrapper", "Sync")
-	if sy == nil {
+	for _, sy := range wrapperSyncAnchors(c, "LocalFlowControlWrapper") {
+		c05ResizeAppliedIn(c, rule, wantType, sy)
+	}
+}
+
+func c05ResizeAppliedIn(c *eng.Ctx, rule string, wantType string, sy *ssa.Function) {
+	iface := fcIface(c)
+	if sy == nil || iface == nil || len(sy.Params) != 2 {
 		return
 	}
-	isResize := eng.LiftMust(func(i ssa.Instruction) bool {
-		ci, ok := i.(ssa.CallInstruction)
-		return ok && eng.MethodNameIs(ci, "Resize")
-	})
-	var fact *boolFact
-	fact = &boolFact{w: c.W, atom: func(r eng.Rel, fr *callBind) bool {
-		if r.Op != token.EQL {
-			return false
+	construct := fmt.Sprintf("type %s ⇒ Resize on every path", wantType)
+	// the receiver's struct: the delegate field(s) (interfaces implementing FlowControl) and the
+	// field remembering the last configuration (same type as Sync's parameter)
+	rt := sy.Signature.Recv().Type()
+	if p, ok := rt.Underlying().(*types.Pointer); ok {
+		rt = p.Elem()
+	}
+	st, _ := rt.Underlying().(*types.Struct)
+	if st == nil {
+		c.Fail(rule, sy, construct, sy.Pos(), "receiver of Sync is not a struct")
+		return
+	}
+	rn := sy.Params[0].Name()
+	delegates, cfgFields := map[string]bool{}, []string{}
+	for i := 0; i < st.NumFields(); i++ {
+		f := st.Field(i)
+		if _, isI := f.Type().Underlying().(*types.Interface); isI && implementsIface(f.Type(), iface) {
+			delegates[rn+"."+f.Name()] = true
 		}
-		isType := func(v ssa.Value) bool {
-			v, _ = fact.resolve(v, fr)
-			cc, _ := eng.CallResultOf(v)
-			return cc != nil && eng.IsCall(cc, pkgFC+".GuessFlowControlSchemaType")
+		if types.Identical(f.Type(), sy.Params[1].Type()) {
+			cfgFields = append(cfgFields, rn+"."+f.Name())
 		}
-		var k ssa.Value
-		switch {
-		case isType(r.X):
-			k = r.Y
-		case isType(r.Y):
-			k = r.X
-		default:
-			return false
+	}
+	if len(delegates) == 0 || len(cfgFields) == 0 {
+		c.Fail(rule, sy, construct, sy.Pos(), "the wrapper has no limiter field / no field remembering the last configuration")
+		return
+	}
+	in := &eng.Interp{W: c.W, Depth: eng.LiftDepth, FollowCall: func(callee *ssa.Function) bool { return callee.Pkg == sy.Pkg }}
+	in.PinCall = func(cc *ssa.Call, idx int, _ *eng.State) (eng.AV, bool) {
+		if eng.IsCall(cc, pkgFC+".GuessFlowControlSchemaType") {
+			return eng.AV{K: eng.ConstV, C: constant.MakeString(wantType)}, true
 		}
-		name, isConst := eng.StringConst(k)
-		return isConst && name == wantType
-	}}
-	n := 0
-	for _, fn := range c.W.Region(sy) {
-		for _, b := range fn.Blocks {
-			if len(b.Instrs) == 0 {
-				continue
+		return eng.AV{}, false
+	}
+	in.PinPath = func(path string) (eng.AV, bool) {
+		if delegates[path] {
+			return eng.AV{K: eng.NonNilV}, true // the limiter exists (a store on the path overrides the pin)
+		}
+		return eng.AV{}, false
+	}
+	paths, err := in.Run(sy, nil)
+	if err != nil {
+		c.Undecided(rule, sy, construct, sy.Pos(), "path enumeration of Sync failed: "+err.Error())
+		return
+	}
+	applied, skipped := 0, 0
+	pos := sy.Pos()
+	for _, pr := range paths {
+		if pr.Panicked || pr.Final == nil {
+			continue
+		}
+		recorded := false
+		for _, k := range cfgFields {
+			if _, ok := pr.Final.Mem(k); ok {
+				recorded = true
 			}
-			iff, ok := b.Instrs[len(b.Instrs)-1].(*ssa.If)
-			if !ok {
-				continue
+		}
+		if !recorded {
+			continue
+		}
+		resized := false
+		for _, ci := range pr.Calls {
+			if _, plain := ci.(*ssa.Call); plain && isFCCall(ci, iface, "Resize") {
+				resized = true
 			}
-			for si := range b.Succs {
-				if !fact.edge(b, si) {
-					continue
+		}
+		if resized {
+			applied++
+		} else {
+			skipped++
+			if pr.Exit != nil && pr.Exit.Pos().IsValid() {
+				pos = pr.Exit.Pos()
+			}
+		}
+	}
+	if applied == 0 && skipped == 0 {
+		c.Fail(rule, sy, construct, sy.Pos(), "no path through localWrapper.Sync records the new configuration")
+		return
+	}
+	c.Check(rule, sy, construct, pos, skipped == 0 && applied > 0,
+		"the new configuration is recorded on this path, so a path that skips Resize (for instance under a test on the new value) leaves the limiter at the old limit for good")
+}
+
+// ---------------------------------------------------------------------------------------
+// Anchors by role.
+//
+// A rule is stated about "the function that does X". Its name is the primary handle; a
+// refactoring may rename it, merge it into its single caller or turn a method into a function
+// taking the fields it needs. roleAnchor then falls back on the role: the unique function
+// among the candidates (found by signature / by the construct that defines the role). The
+// anchor is unresolved — and the check fails closed — only when the name is gone AND no single
+// function fulfils the role.
+func roleAnchor(c *eng.Ctx, byName *ssa.Function, what string, candidates func() []*ssa.Function) *ssa.Function {
+	if byName != nil && byName.Blocks != nil {
+		return byName
+	}
+	cs := candidates()
+	if len(cs) == 1 {
+		c.Note("anchor %s resolved by role: %s", what, eng.FuncName(cs[0]))
+		return cs[0]
+	}
+	var names []string
+	for _, f := range cs {
+		names = append(names, eng.FuncName(f))
+	}
+	c.Fail("engine", nil, "unresolved-anchor "+what, 0, fmt.Sprintf("anchor not found by name, and %d functions fulfil its role %v", len(cs), names))
+	return nil
+}
+
+// funcsWithParam returns the package-level, non-synthetic functions and methods of package pkg
+// with a body that have a parameter (receiver excluded) of the named type typ (pointer or
+// value), or — typ == "" — for which match holds.
+func funcsWithParam(c *eng.Ctx, pkg string, match func(t types.Type) bool) []*ssa.Function {
+	var out []*ssa.Function
+	for _, fn := range c.W.FuncsOf(pkg) {
+		if fn.Parent() != nil || fn.Synthetic != "" || fn.Blocks == nil {
+			continue
+		}
+		ps := fn.Signature.Params()
+		for i := 0; i < ps.Len(); i++ {
+			if match(ps.At(i).Type()) {
+				out = append(out, fn)
+				break
+			}
+		}
+	}
+	return out
+}
+
+func namedOrPtrTo(name string) func(types.Type) bool {
+	return func(t types.Type) bool {
+		if p, ok := t.Underlying().(*types.Pointer); ok {
+			t = p.Elem()
+		}
+		return eng.TypeName(t) == name
+	}
+}
+
+// deepest keeps the candidates that call no other candidate (directly or through a bound method
+// value): of a chain of forwarders the function that does the work.
+func deepest(cs []*ssa.Function) []*ssa.Function {
+	is := map[*ssa.Function]bool{}
+	for _, f := range cs {
+		is[f] = true
+	}
+	var out []*ssa.Function
+	for _, f := range cs {
+		forwards := false
+		for _, g := range eng.WithClosures(f) {
+			for _, ci := range eng.Calls(g) {
+				if callee := ci.Common().StaticCallee(); callee != nil && callee != f && is[callee] {
+					forwards = true
 				}
-				n++
-				// entering the successor through this very edge
-				skip := eng.ReachFromBlock(b.Succs[si], eng.PathQuery{Target: eng.IsExit, Avoid: isResize})
-				c.Check(rule, sy, fmt.Sprintf("type %s ⇒ Resize on every path", wantType), iff.Pos(), skip == nil,
-					"the new configuration is recorded before this point, so a path that skips Resize (for instance under a test on the new value) leaves the limiter at the old limit for good")
 			}
 		}
+		if !forwards {
+			out = append(out, f)
+		}
 	}
-	if n == 0 {
-		c.Fail(rule, sy, "type ⇒ Resize on every path", sy.Pos(), "no branch on the schema type found in localWrapper.Sync")
+	return out
+}
+
+// hasSelf reports whether fn works on an object of the named type: as receiver or parameter.
+func hasSelf(fn *ssa.Function, typ string) bool {
+	for _, p := range fn.Params {
+		if namedOrPtrTo(typ)(p.Type()) {
+			return true
+		}
 	}
+	return false
+}
+
+// limiterSyncAnchor: the function of the cluster limiter that applies a new flow-control spec
+// (upstreamLimiter.syncLocalFlowControls). Role: the function of the package taking the
+// FlowControl spec that does not merely forward it to another such function.
+func limiterSyncAnchor(c *eng.Ctx) *ssa.Function {
+	return roleAnchor(c, c.W.Method(pkgFCRoot, "upstreamLimiter", "syncLocalFlowControls"), "method ("+pkgFCRoot+".upstreamLimiter).syncLocalFlowControls", func() []*ssa.Function {
+		return deepest(funcsWithParam(c, pkgFCRoot, namedOrPtrTo(pkgV1alpha1+".FlowControl")))
+	})
+}
+
+// wrapperSyncAnchors: the declared Sync methods of the types implementing wrapper interface ifn
+// (LocalFlowControlWrapper / RemoteFlowControlWrapper) of pkg/flowcontrols/remote.
+func wrapperSyncAnchors(c *eng.Ctx, ifn string) []*ssa.Function {
+	wi := c.W.Interface(pkgFCRemote, ifn)
+	if wi == nil {
+		c.Fail("engine", nil, "unresolved-anchor interface "+ifn, 0, "not found")
+		return nil
+	}
+	var out []*ssa.Function
+	for _, named := range c.W.Implementers(wi) {
+		if m := c.W.DeclaredMethod(named, "Sync"); m != nil && m.Blocks != nil {
+			out = append(out, m)
+		}
+	}
+	if len(out) == 0 {
+		c.Fail("engine", nil, "unresolved-anchor Sync of "+ifn, 0, "no implementer declares Sync")
+	}
+	return out
 }
